@@ -24,6 +24,11 @@ extern const op_t ops_misc[];
 extern const op_t ops_jws[];
 extern const op_t ops_jwe[];
 extern const op_t ops_api[];
+extern const op_t ops_cfg[];
+extern const op_t ops_glob[];
+json_t *hx_cfg_errnames(void);
+void hx_stderr_begin(void);
+char *hx_stderr_end(void);
 
 /* hex helpers */
 uint8_t *hx_unhex(const char *hex, size_t *len);          /* malloc'd, never NULL on valid hex */
@@ -43,6 +48,7 @@ bool hx_arg_bool(json_t *args, const char *key, bool dflt);
 const char *hx_arg_str(json_t *args, const char *key);    /* NULL if absent / not a string */
 
 size_t hx_refsum(json_t *j);
+json_t *hx_tmpl(json_t *args, const char *key);
 
 #define CANARY 32
 #define CANARY_BYTE 0xA5
